@@ -339,6 +339,19 @@ type respScript struct {
 	// (flag 0x81 / 0x03): legal for both protocols when a response compression was declared, never sent by
 	// connect-go or grpc-go
 	endComp bool
+	// padDetails: grpc-status-details-bin is sent as padded base64
+	padDetails bool
+}
+
+// detailsBin: the grpc-status-details-bin value; gRPC senders may pad the base64 text and receivers must accept both
+func (s *respScript) detailsBin() string {
+	v := refBase64RawStd(refStatusWire(s.errCode, s.errMsg, s.details))
+	if s.padDetails {
+		for len(v)%4 != 0 {
+			v += "="
+		}
+	}
+	return v
 }
 
 type pipeBackend struct {
@@ -698,7 +711,7 @@ func (b *pipeBackend) ServeHTTP(w http.ResponseWriter, r *http.Request) {
 			h.Set("Grpc-Message", s.errMsg)
 		}
 		if len(s.details) > 0 {
-			h.Set("Grpc-Status-Details-Bin", refBase64RawStd(refStatusWire(s.errCode, s.errMsg, s.details)))
+			h.Set("Grpc-Status-Details-Bin", s.detailsBin())
 		}
 		for k, v := range s.trailerHdrs {
 			h[k] = v
@@ -762,7 +775,7 @@ func (b *pipeBackend) ServeHTTP(w http.ResponseWriter, r *http.Request) {
 			h.Set(pre+"Grpc-Message", s.errMsg)
 		}
 		if len(s.details) > 0 {
-			h.Set(pre+"Grpc-Status-Details-Bin", refBase64RawStd(refStatusWire(s.errCode, s.errMsg, s.details)))
+			h.Set(pre+"Grpc-Status-Details-Bin", s.detailsBin())
 		}
 		for k, v := range s.trailerHdrs {
 			h[pre+k] = v
@@ -776,7 +789,7 @@ func (b *pipeBackend) ServeHTTP(w http.ResponseWriter, r *http.Request) {
 			blk += "grpc-message: " + s.errMsg + "\r\n"
 		}
 		if len(s.details) > 0 {
-			blk += "grpc-status-details-bin: " + refBase64RawStd(refStatusWire(s.errCode, s.errMsg, s.details)) + "\r\n"
+			blk += "grpc-status-details-bin: " + s.detailsBin() + "\r\n"
 		}
 		for k, vs := range s.trailerHdrs {
 			for _, v := range vs {
